@@ -58,6 +58,9 @@ func genRTStack(r *rand.Rand, depth int) V {
 	if r.Intn(6) == 0 {
 		c.Opt |= fParen
 	}
+	if r.Intn(6) == 0 && c.Kind != 4 {
+		c.Sym = []string{"&&", "||", "!", "plus"}[r.Intn(4)] // presentation only: Unmarshal still emits the kind label
+	}
 	st := V{T: 'K', Form: "n", Cfg: c}
 	for i, n := 0, r.Intn(5); i < n; i++ {
 		switch {
@@ -232,11 +235,21 @@ func genAnyTrees(r *rand.Rand, id string, tier string) string {
 		d = 5
 	}
 	recv := "zero"
-	switch r.Intn(4) {
+	switch r.Intn(8) {
 	case 0:
 		recv = V{T: 'K', Form: "n", Cfg: Cfg{Kind: kinds(r)}, Xs: []V{{T: 'i', I: 7}}}.String()
 	case 1:
 		recv = V{T: 'K', Form: "n", Cfg: Cfg{Kind: kinds(r), Cap: 1 + r.Intn(2)}, Xs: []V{{T: 'i', I: 7}}}.String()
+	case 2:
+		// initialised but empty, with or without a capacity: it gains one element and keeps its configuration
+		recv = V{T: 'K', Form: "n", Cfg: Cfg{Kind: kinds(r), Cap: r.Intn(3), Fifo: r.Intn(2) == 0}}.String()
+	case 3:
+		// mutex and a push policy (1 accepts the decoded value, 5 rejects everything): Marshal must still return
+		c := Cfg{Kind: kinds(r), Mtx: true, Ppf: []int{1, 5}[r.Intn(2)], Cap: r.Intn(3)}
+		recv = V{T: 'K', Form: "n", Cfg: c}.String()
+		if r.Intn(2) == 0 {
+			recv = V{T: 'K', Form: "n", Cfg: Cfg{Kind: c.Kind, Mtx: true, Ppf: c.Ppf}, Xs: []V{{T: 'i', I: 7}}}.String()
+		}
 	}
 	return recv + " | " + genAnyRow(r, r.Intn(d+1)).String()
 }
